@@ -90,7 +90,11 @@ Definition split_at (n : nat) (bs : bytes) : option (bytes * bytes) :=
 (* BytesReader::read_bytes: varint32 length, then that many bytes. *)
 Definition read_len (bs : bytes) : option (bytes * bytes) :=
   match read_varint32 bs with
-  | Some (len, r) => split_at (Z.to_nat len) r
+  | Some (len, r) =>
+      (* compared on Z: a 32-bit length must never be turned into a unary nat before the check *)
+      if len <=? Z.of_nat (length r)
+      then Some (firstn (Z.to_nat len) r, skipn (Z.to_nat len) r)
+      else None
   | None => None
   end.
 
